@@ -162,8 +162,131 @@ def is_max(m, n, f, default):
 
 _JOIN_CACHE = {}
 
+OVER = z3.Bool("pyvc!overapprox")     # assumed on every over-approximated path (EXC-ANY, havoc of an unmodelled call, loop cut without
+                                      # invariant): a `sat` answer / a structural mismatch on such a path is NOT a counter-model -> unknown
+
+
+def mentions_over(pc):
+    return any(z3.eq(x, OVER) for x in pc)
+
+
+def register_over():
+    from pyvc import solve
+    if _untrusted not in solve.SAT_UNTRUSTED:
+        solve.SAT_UNTRUSTED.append(_untrusted)
+
+
+def _untrusted(pc, goal):
+    return mentions_over(pc)
+
 
 class SymListMixin:
+    # ------------------------------------------------------ over-approximations --
+    def exc_any(self, st, site, also=()):
+        st.assume(OVER)
+        return super().exc_any(st, site, also)
+
+    def havoc_call(self, st, what, args, node):
+        r = super().havoc_call(st, what, args, node)
+        st.assume(OVER)
+        return r
+
+    def exc_model(self, st, site):
+        """an exception that an ASSUMED MODEL deliberately allows (documented behaviour of the library call): a real path, no marker"""
+        t, c = self.uni.any_exception()
+        s2 = st.fork().assume(c)
+        from pyvc.values import VExc
+        self.raise_in(s2, VExc(t, {"site": site}))
+        self.exc_any_sites.append(site)
+
+    def loop_spec(self, node):
+        auto = getattr(self, "_auto_specs", {}).get(id(node))
+        return auto if auto is not None else super().loop_spec(node)
+
+    def symbolic_for(self, s, st, it):
+        spec = self.loop_spec(s)
+        if spec is None or spec.inv is None:
+            auto = None
+            try:
+                auto = self._running_max_invariant(s, st, it)
+            except (Unsupported, z3.Z3Exception, KeyError, AttributeError):
+                auto = None
+            if auto is not None:
+                self._auto_specs = {**getattr(self, "_auto_specs", {}), id(s): auto}
+            else:
+                st.assume(OVER)
+        return super().symbolic_for(s, st, it)
+
+    def _running_max_invariant(self, s, st, it):
+        """A `for` loop over a symbolic sequence that only updates one integer accumulator: try the invariant
+        "acc is the maximum of its initial value and g(x) over the processed prefix" for every integer expression g(x) of the
+        body.  A candidate is used ONLY after its inv-init / inv-preserve VCs have been proved here (Houdini style), so this
+        never assumes anything unproved; otherwise the loop is cut as before (over-approximation marker)."""
+        from pyvc import solve
+        from pyvc.contracts import LoopSpec
+        if not isinstance(s.target, ast.Name) or s.orelse:
+            return None
+        probe = st.fork()
+        view = self.seq_view(probe, it)
+        if view is None or self.mutated_refs(s.body, st):
+            return None
+        length, elem = view
+        accs = [nm for nm in sorted(self.assigned_names(s.body) - {s.target.id}) if st.lookup(nm) is not None]
+        if len(accs) != 1 or not isinstance(st.lookup(accs[0]), VInt):
+            return None
+        acc = accs[0]
+        a0 = ops.int_term(st.lookup(acc))
+        k = z3.Int(fresh_name("fk"))
+        cands, seen = [], set()
+        for node in [n for b in s.body for n in ast.walk(b) if isinstance(n, ast.expr)]:
+            src = ast.unparse(node)
+            if src in seen or s.target.id not in {x.id for x in ast.walk(node) if isinstance(x, ast.Name)} or acc in {x.id for x in ast.walk(node) if isinstance(x, ast.Name)}:
+                continue
+            seen.add(src)
+            p2 = st.fork()
+            p2.frames.append(Frame({s.target.id: elem(k)}, len(p2.frames) - 1, p2.frame.fnode))
+            p2.assume(z3.And(k >= 0, k < length))
+            self.sinks.append([])
+            try:
+                v, _facts = self._eval_pure(node, p2, len(p2.pc), "fold candidate")
+            except Unsupported:
+                continue
+            finally:
+                self.sinks.pop()
+            if isinstance(v, VInt):
+                cands.append((src, ops.int_term(v)))
+        for src, g in cands[:6]:
+            gk = (lambda j, g=g: z3.substitute(g, (k, j)))
+
+            def inv(lc, gk=gk):
+                a = ops.int_term(lc[acc])
+                q, w = z3.Int(fresh_name("q")), z3.Int(fresh_name("w"))
+                return z3.And(a >= a0, z3.ForAll([q], z3.Implies(z3.And(q >= 0, q < lc.i), gk(q) <= a)),
+                              z3.Or(a == a0, z3.Exists([w], z3.And(w >= 0, w < lc.i, gk(w) == a))))
+            spec = LoopSpec(inv=inv, label=f"auto-running-max-of-{acc}")
+            saved_obls, saved_auto = self.obls, getattr(self, "_auto_specs", {})
+            self.obls, self._auto_specs = {}, {**saved_auto, id(s): spec}
+            self.sinks.append([])
+            ok = False
+            try:
+                super().symbolic_for(s, st.fork(), it)
+                vcs = [vc for ob in self.obls.values() if ob.kind in ("inv-init", "inv-preserve") for vc in ob.vcs]
+                ok = bool(vcs) and all(solve.check_vc(vc.pc, vc.goal if not hasattr(vc.goal, "t") else vc.goal.t, 5000, want_model=False, use_cvc5=False).status == "proved" for vc in vcs)
+            except Unsupported:
+                ok = False
+            finally:
+                self.sinks.pop()
+                self.obls, self._auto_specs = saved_obls, saved_auto
+            if ok:
+                return spec
+        return None
+
+    def try_concrete_while(self, s, st, limit=4096):
+        r = super().try_concrete_while(s, st, limit)
+        if r is None:
+            st.assume(OVER)          # the loop will be cut without an invariant
+        return r
+
     # ---------------------------------------------------------------- views --
     def as_seq(self, st, v):
         """VSeq view of a sequence value (symbolic, slist, or concrete), else None."""
@@ -394,9 +517,31 @@ class SymListMixin:
                 st.assume(c)
 
     # ---------------------------------------------------------- comprehensions --
+    def _eval_pure(self, node, st, npc, what):
+        """evaluate `node` in st; the evaluation may fork (e.g. Optional results of a model) but must be effect free:
+        -> (value merged over the forks with ite, facts assumed on every fork).  Raises Unsupported otherwise."""
+        mark = len(self.sinks[-1])
+        heap_keys = set(st.heap)
+        res = self.ev(node, st.fork())
+        if not res or len(self.sinks[-1]) != mark:
+            raise Unsupported(f"{self.loc(node)} {what} may raise over a symbolic sequence")
+        common = None
+        for (s2, _v) in res:
+            extra = [c for c in s2.pc[npc:]]
+            ids = {c.get_id(): c for c in extra}
+            common = ids if common is None else {k: c for k, c in common.items() if k in ids}
+        common = common or {}
+        merged = None
+        for (s2, v) in reversed(res):
+            v = self.snapshot(s2, v) if isinstance(v, VRef) else v
+            cond = z3.And([c for c in s2.pc[npc:] if c.get_id() not in common] + [z3.BoolVal(True)])
+            merged = v if merged is None else vite(cond, v, merged)
+        return merged, list(common.values())
+
     def _sym_comp(self, n, st, elt_node):
-        """[elt for x in S] over a symbolic sequence S with a total, effect-free elt -> VSeq or None."""
-        if len(n.generators) != 1 or n.generators[0].ifs or n.generators[0].is_async:
+        """[elt for x in S (if cond)] over a symbolic sequence S with a total, effect-free elt -> VSeq or None.
+        With a filter the result is a lazy filtered view (tag = ("filter", n, keep(k), elem(k))) that only `next()` consumes."""
+        if len(n.generators) != 1 or n.generators[0].is_async:
             return None
         g = n.generators[0]
         probe = st.fork()
@@ -419,24 +564,151 @@ class SymListMixin:
             s2.frames.append(fr)
             npc = len(s2.pc)
             s2.assume(z3.And(k >= 0, k < length))
-            mark = len(self.sinks[-1])
             try:
-                for s3 in self.assign(g.target, elem(k), s2):
-                    res = self.ev(elt_node, s3)
+                states = self.assign(g.target, elem(k), s2)
+                if len(states) != 1:
+                    raise Unsupported(f"{self.loc(n)} comprehension target forks")
+                s3 = states[0]
+                keep = None
+                for cond in g.ifs:
+                    cv, facts0 = self._eval_pure(cond, s3, npc + 1, "comprehension filter")
+                    t = self.truth(s3, cv).t
+                    keep = t if keep is None else z3.And(keep, t)
+                    for c in facts0:
+                        s3.assume(c)
+                v, facts = self._eval_pure(elt_node, s3, len(s3.pc), "comprehension element")
+                extra = s3.pc[npc + 1:] + facts
             finally:
-                pass
-            if len(res) != 1 or len(self.sinks[-1]) != mark:
-                raise Unsupported(f"{self.loc(n)} comprehension element forks or may raise over a symbolic sequence")
-            s4, v = res[0]
-            extra = s4.pc[npc + 1:]
-            s4.frames.pop()
-            del s4.pc[npc:]
-            # facts assumed while evaluating the element (e.g. well-formedness of a model) hold for every index
-            for c in extra:
-                s4.assume(z3.ForAll([k], z3.Implies(z3.And(k >= 0, k < length), c)))
-            v = self.snapshot(s4, v)
-            out.append((s4, VSeq(length, lambda i, v=v, k=k: subst_v(v, [(k, i)]), "sym")))
+                s2.frames.pop()
+                del s2.pc[npc:]
+            for c in extra:     # facts assumed while evaluating (well-formedness of a model) hold for every index
+                s2.assume(z3.ForAll([k], z3.Implies(z3.And(k >= 0, k < length), c)))
+            el = (lambda i, v=v, k=k: subst_v(v, [(k, i)]))
+            if keep is None:
+                out.append((s2, VSeq(length, el, "sym")))
+            else:
+                kp = (lambda i, keep=keep, k=k: z3.substitute(keep, (k, i)))
+                cnt = z3.Int(fresh_name("nkept"))
+                s2.assume(z3.And(cnt >= 0, cnt <= length))
+
+                def no_elem(i):
+                    raise Unsupported("a filtered comprehension over a symbolic sequence is only supported as the argument of next()")
+                out.append((s2, VSeq(cnt, no_elem, "filtered", tag=("filter", length, kp, el))))
         return out
+
+    def b_next(self, st, args, kwargs, node):
+        it = args[0] if args else None
+        if isinstance(it, VRef) and st.obj(it.ref).kind == "slist":
+            it = st.obj(it.ref).data
+        if isinstance(it, VSeq) and isinstance(it.tag, tuple) and it.tag and it.tag[0] == "filter":
+            # next(<x for x in S if keep(x)>, default): the first element that passes the filter
+            _f, n, keep, el = it.tag
+            j, m = z3.Int(fresh_name("first")), z3.Int(fresh_name("m"))
+            out = []
+            found = z3.And(j >= 0, j < n, keep(j), z3.ForAll([m], z3.Implies(z3.And(m >= 0, m < j), z3.Not(keep(m)))))
+            none = z3.ForAll([m], z3.Implies(z3.And(m >= 0, m < n), z3.Not(keep(m))))
+            s_found = st.fork().assume(found)
+            if self.feasible(s_found.pc):
+                out.append((s_found, el(j)))
+            s_none = st.assume(none)
+            if len(args) > 1:
+                out.append((s_none, args[1]))
+            else:
+                self.raise_in(s_none, self.mk_exc("StopIteration"))
+            return out
+        sup = getattr(super(), "b_next", None)
+        if sup is not None:
+            return sup(st, args, kwargs, node)
+        return self.havoc_call(st, "next", args, node)
+
+    def b_map(self, st, args, kwargs, node):
+        """map(f, S) over a symbolic sequence with a pure single-valued f: the element-wise image"""
+        if len(args) == 2:
+            s = args[1] if isinstance(args[1], VSeq) else (self.as_seq(st, args[1]) if isinstance(args[1], VRef) and st.obj(args[1].ref).kind == "slist" else None)
+            if s is not None and not (isinstance(s.tag, tuple) and s.tag and s.tag[0] == "filter"):
+                k = z3.Int(fresh_name("mk"))
+                mark = len(self.sinks[-1])
+                probe = st.fork()
+                probe.assume(z3.And(k >= 0, k < s.length))
+                r = self.call(probe, args[0], [s.elem(k)], {}, node)
+                if len(r) == 1 and len(self.sinks[-1]) == mark and not mentions_over(r[0][0].pc):
+                    v = r[0][1]
+                    return [(st, VSeq(s.length, lambda i, v=v, k=k: subst_v(v, [(k, i)]), "sym"))]
+                del self.sinks[-1][mark:]
+            items = self.concrete_items(st, args[1])
+            if items is not None:
+                acc = [(st, [])]
+                for x in items:
+                    acc = [(s3, vals + [v]) for (s2, vals) in acc for (s3, v) in self.call(s2, args[0], [x], {}, node)]
+                return [(s2, VTuple(vals)) for (s2, vals) in acc]
+        return self.havoc_call(st, "map", args, node)
+
+    # ------------------------------------------------- starred displays / targets --
+    def e_List(self, n, st):
+        """[a, *xs, b]: concrete pieces stay concrete; a starred symbolic sequence makes the result a symbolic list"""
+        if not any(isinstance(e, ast.Starred) for e in n.elts):
+            return super().e_List(n, st)
+        acc = [(st, [])]
+        for e in n.elts:
+            nxt = []
+            for (s, parts) in acc:
+                for (s2, v) in self.ev(e.value if isinstance(e, ast.Starred) else e, s):
+                    nxt.append((s2, parts + [(isinstance(e, ast.Starred), v)]))
+            acc = nxt
+        out = []
+        for (s, parts) in acc:
+            items, sym = [], False
+            for star, v in parts:
+                if not star:
+                    items.append(("one", v))
+                    continue
+                ci = self.concrete_items(s, v)
+                if ci is not None:
+                    items.extend(("one", x) for x in ci)
+                else:
+                    sq = self.as_seq(s, v)
+                    if sq is None:
+                        raise Unsupported(f"{self.loc(n)} starred of {v!r}")
+                    items.append(("seq", sq))
+                    sym = True
+            if not sym:
+                out.append((s, self.new_list(s, [v for _k, v in items])))
+                continue
+            cur = None
+            run = []
+            for k, v in items + [("end", None)]:
+                if k == "one":
+                    run.append(self.snapshot(s, v))
+                    continue
+                if run:
+                    piece = seq_of_items(run)
+                    cur = piece if cur is None else concat(cur, piece)
+                    run = []
+                if k == "seq":
+                    cur = v if cur is None else concat(cur, v)
+            out.append((s, VRef(s.alloc(HeapObj("slist", cur), self.refs))))
+        return out
+
+    def assign(self, tgt, v, st):
+        """a, *rest, z = <sequence of concrete length>"""
+        if isinstance(tgt, (ast.Tuple, ast.List)) and sum(isinstance(e, ast.Starred) for e in tgt.elts) == 1:
+            items = self.concrete_items(st, v)
+            if items is None:
+                raise Unsupported(f"{self.loc(tgt)} starred unpacking of a symbolic sequence")
+            k = [isinstance(e, ast.Starred) for e in tgt.elts].index(True)
+            after = len(tgt.elts) - k - 1
+            if len(items) < k + after:
+                self.raise_in(st, self.mk_exc("ValueError"))
+                return []
+            groups = items[:k] + [self.new_list(st, items[k:len(items) - after])] + (items[len(items) - after:] if after else [])
+            states = [st]
+            for e, item in zip(tgt.elts, groups):
+                nxt = []
+                for s2 in states:
+                    nxt.extend(self.assign(e.value if isinstance(e, ast.Starred) else e, item, s2))
+                states = nxt
+            return states
+        return super().assign(tgt, v, st)
 
     def e_GeneratorExp(self, n, st):
         r = self._sym_comp(n, st, n.elt)
